@@ -331,6 +331,42 @@ def nearest_ok(raw, S, k, nd):
     return True, ('tie' if (c_hi == 0 or c_lo == 0) else 'interior')
 
 
+def excess_units(raw, S, k, nd, extra=80):
+    """how far (in units of the last of nd printed places) the value of raw is from the printed S*10**k, minus the
+    permitted half unit -- as a float, for severity ranking only (approximate for |k| > EXACT_E: 5**|k| is replaced by
+    the lower end of a very narrow enclosure).  Same padding of S to nd digits as nearest_ok."""
+    sign, man, exp, bc = raw
+    A = abs(S)
+    ds = str(A)
+    pad = nd - len(ds)
+    if pad >= 0:
+        A *= 10 ** pad
+        k -= pad
+    else:
+        A //= 10 ** (-pad)
+        k += -pad
+    man = int(man)
+    # V ~ |x| / 10**k * 2**extra
+    kk = abs(k)
+    if kk <= EXACT_E:
+        f, a = pow5(kk), 0
+    else:
+        f, _hi, a = pow5_bounds(kk, bc + 4 * nd + extra + 2 * kk.bit_length() + 60)
+    if k >= 0:
+        # |x| / (f 2^a 2^k)
+        sh = exp - k - a + extra
+        num, den = man, f
+    else:
+        sh = exp - k + a + extra
+        num, den = man * f, 1
+    if sh >= 0:
+        V = (num << sh) // den
+    else:
+        V = num // (den << (-sh))
+    d = abs(V - (A << extra))
+    return d / float(1 << extra) - 0.5
+
+
 def nearest_ok_fraction(raw, S, k, nd):
     """Twin of nearest_ok written with Fractions and exactq.nearest_decimals (moderate exponents only)."""
     x = Q.from_raw(raw).fraction()
